@@ -643,6 +643,11 @@ class _MetaAbstractDtype(type):
                 "Ellipsis can be used to accept any shape: `Float[Array, '...']`."
             )
         array_type, dim_str = item
+        if not isinstance(dim_str, str):
+            raise ValueError(
+                "Shape specification must be a string. Axes should be separated with "
+                "spaces."
+            )
         dim_str = dim_str.strip()
         if isinstance(array_type, TypeVar):
             bound = array_type.__bound__
